@@ -10,7 +10,7 @@ import os
 import vlib
 from checks import exprcommon as X
 
-PROOF_MODULES = []   # C39 files are not in coq/_CoqProject yet: compiled directly (see report)
+PROOF_MODULES = ["C39/FsSpec.vo", "C39/HasSym.vo", "C39/AtomsComplete.vo", "C39/CoeffProofs.vo", "C39/QueryLemmas.vo"]
 OBLIGATIONS = [
     "C39/P_free_symbols_spec_guarded.v", "C39/P_free_symbols_code_spec.v", "C39/P_free_symbols_sound.v",
     "C39/P_free_symbols_terminates.v", "C39/P_free_symbols_refuted.v", "C39/P_eq_preserves_occurrences.v",
@@ -250,7 +250,6 @@ def split_out(line):
 
 def run(ctx):
     ctx.gate(["Base", "Gen", "Num", "Expr", "C39"])
-    build_own(ctx)
     ctx.prove(PROOF_MODULES, OBLIGATIONS)
     drv = ctx.build_driver("c39_driver")
     model = ctx.build_model("C39", "C39/Extract.v", "c39_main.ml", "semodel", extra_ml=["expr_io.ml"])
@@ -381,7 +380,6 @@ def first_diff(m, r):
 
 
 def replay(ctx, rep):
-    build_own(ctx)
     drv = ctx.build_driver("c39_driver")
     model = ctx.build_model("C39", "C39/Extract.v", "c39_main.ml", "semodel", extra_ml=["expr_io.ml"])
     c = rep["replay"]["case"]
